@@ -93,6 +93,25 @@ def survivors():
     return out
 
 
+def kill_own_workers():
+    """SIGKILL the children of this process except loky's resource trackers (they clean up and leave by themselves)."""
+    me = os.getpid()
+    for d in os.listdir("/proc"):
+        if not d.isdigit():
+            continue
+        try:
+            with open(f"/proc/{d}/stat") as f:
+                st = f.read()
+            if int(st[st.rindex(")") + 2:].split()[1]) != me:
+                continue
+            with open(f"/proc/{d}/cmdline", "rb") as f:
+                if b"resource_tracker" in f.read():
+                    continue
+            os.kill(int(d), 9)
+        except (OSError, ValueError, IndexError):
+            pass
+
+
 # ----------------------------------------------------------------------------- thread health
 
 
@@ -106,6 +125,7 @@ def install_excepthook():
             def abort():
                 time.sleep(4.0)
                 emit(dict(ev="abort", why="executor manager thread died", survivors=survivors()))
+                kill_own_workers()
                 os._exit(70)
 
             threading.Thread(target=abort, daemon=True, name="c10-abort").start()
@@ -130,6 +150,8 @@ class Sync:
         self.release = threading.Event()
         self.used = False
         self.lock = threading.Lock()
+        self.n_submits = 0
+        self.expected_submits = None
 
     def arm(self, spec):
         with self.lock:
@@ -137,6 +159,7 @@ class Sync:
             self.at_point.clear()
             self.release.clear()
             self.used = False
+            self.n_submits = 0
 
     def disarm(self):
         with self.lock:
@@ -202,6 +225,9 @@ def install_sync_hooks():
             return orig_submit(self, *a, **k)
         finally:
             SYNC.caller_reach("submit1")
+            SYNC.n_submits += 1
+            if SYNC.expected_submits is not None and SYNC.n_submits >= SYNC.expected_submits:
+                SYNC.caller_reach("submitted-all")
 
     rx._ReusablePoolExecutor.submit = submit
 
@@ -239,8 +265,12 @@ def main():
                 reached = SYNC.at_point.wait(REACH)
                 emit(dict(ev="sync-reached", call=ci, point=pre["sync"]["mgr"], reached=bool(reached)))
                 SYNC.caller_reach("call-start")
+                if sc.get("managed"):
+                    SYNC.caller_reach("configured")  # inside a `with` block the backend is configured already
             if pre.get("settle"):
                 time.sleep(pre["settle"])
+        # the caller thread itself submits min(n_tasks, pre_dispatch = 2 * n_jobs) tasks (batch_size = 1)
+        SYNC.expected_submits = c["n_tasks"] if c.get("pre_dispatch") == "all" else min(c["n_tasks"], 2 * n_jobs)
         faults = {int(k): v for k, v in (c.get("faults") or {}).items()}
         work = c.get("work", 0.01)
         startup = c.get("startup")
@@ -266,7 +296,6 @@ def main():
                 f = dict(faults.get(i) or {})
                 f.setdefault("work", work)
                 yield delayed(F.task)(ci, F.Arg(i, f, parent))
-            SYNC.caller_reach("submitted-all")
 
         before = executor_view()
         t0 = time.time()
